@@ -133,10 +133,12 @@ def logic_job(j):
 
             def expect(v, genv):
                 chosen, tag = v
-                if chosen is s:
+                # the executor re-creates argument lists for every path; the cost objects inside keep their identity
+                same = lambda x, y: len(x) == len(y) and all(p is q for p, q in zip(x, y))
+                if same(chosen, s):
                     # superopt kept: greedy must not save strictly more, unless both save nothing
                     return z3.Or(saved_s >= saved_g, z3.And(saved_s <= P.bvc(0), saved_g <= P.bvc(0)))
-                if chosen is g:
+                if same(chosen, g):
                     return z3.And(saved_g > saved_s, saved_g > P.bvc(0))
                 return z3.BoolVal(False)
             check_paths(paths, ass, expect, "compare_best_block/%s/%d" % (crit, n), out)
